@@ -332,6 +332,27 @@ def build_unit(u, tier, extra_defs=(), tag='', trace=False):
         res['detail'] = 'loop contracts present in the spec but only %d loop_invariant_step obligations generated (need %d)' % (byc.get('loop_invariant_step', 0), u.get('min_loops', 1))
     else:
         res['status'] = 'ok'
+    # thorough tier: every proof unit that passed on the built-in SAT solver is re-run on a second back end (cadical);
+    # a disagreement is a tool failure (exit 2), never a verdict
+    if res['status'] == 'ok' and tier == 'thorough' and not trace and u.get('kind', 'proof') == 'proof' and backend == 'sat' and u.get('second_backend', True):
+        cb3 = [c for c in cb] + ['--sat-solver', 'cadical']
+        outj3 = os.path.join(bdir, 'cbmc.second.json')
+        with open(outj3, 'wb') as fo:
+            rc3, err3, dt3 = run(cb3, timeout, out=fo)
+        res['second_backend'] = {'solver': 'cadical', 'time_s': round(dt3, 2)}
+        if rc3 == -9:
+            res['second_backend']['result'] = 'timeout (not counted)'
+        else:
+            try:
+                results3, _ = parse_cbmc_json(outj3)
+                bad3 = sorted(r['property'] for r in (results3 or []) if r['status'] == 'FAILURE' and not r.get('description', '').startswith('CANARY')
+                              and not any(r.get('description', '').startswith(x) for x in IGNORED_DESCRIPTIONS))
+                res['second_backend']['result'] = 'agrees' if not bad3 else 'DISAGREES: ' + ', '.join(bad3[:5])
+                if bad3:
+                    res['status'] = 'tool-error'
+                    res['detail'] = 'back ends disagree: cadical reports ' + ', '.join(bad3[:5])
+            except ToolError as e:
+                res['second_backend']['result'] = 'unparsable (not counted): %s' % e
     return res
 
 
@@ -627,7 +648,7 @@ def main():
                 'solver_time_s': r.get('solver_time_s'), 'canary': r.get('canary'), 'bound': (u.get('bound') if r.get('kind') != 'proof' else None),
                 'unwind': tier_val(u, 'unwind', tier), 'claims': u.get('claims'),
                 'extracted': [{'file': i['file'], 'line': i['line'], 'what': i['what'], 'sha256': i['sha256'], 'rewrite_rules_fired': i['rules']} for i in r.get('extracts', [])],
-                'harness_assumes': r.get('assumes'), 'flat_address_space_uses': r.get('flat_address_space_uses', 0), 'checker_cmd': r.get('checker_cmd'), 'detail': r.get('detail'),
+                'second_backend': r.get('second_backend'), 'harness_assumes': r.get('assumes'), 'flat_address_space_uses': r.get('flat_address_space_uses', 0), 'checker_cmd': r.get('checker_cmd'), 'detail': r.get('detail'),
             } for u, r in results],
             'proof_units': {'count': len(proof_units), 'obligations': po, 'discharged': pd},
             'bounded_units': {'count': len(bounded_units), 'obligations': bo, 'discharged': bd, 'note': 'bounded stand-ins (cbmc --unwind N --unwinding-assertions or finite universe); never counted as proved'},
